@@ -2,7 +2,7 @@
    This file contains only the property theorems about the sequential pull-stream model of
    value/list.go + iterator (Lib/Stream.v); each is closed by an exact lemma application
    (proofs in Lib/StreamProofs.v).  All statements quantify over every pipeline built from
-   map/accept/combine/number/iir/compact/skip/top/+/cross/merge over numbers(n) and literal lists, every
+   map/accept/combine/number/iir/compact/skip/top/+/cross/merge and pass-through constructs over numbers(n) and literal lists, every
    closure (arbitrary total functions into ok/error), every consumer and every amount of fuel.
 
    The model follows the repaired code (repo commit "fix: top(n) stops after the n-th element instead
@@ -100,6 +100,18 @@ Proof. exact drain_one. Qed.
 Theorem C08_multiuse_read_ahead_cost : forall id f p q,
   (count id (fst (drain f p q)) <= occ_pipe id p * snd (drain f p q))%nat.
 Proof. exact drain_count. Qed.
+
+(* ---------------------------------------------------------------- pass-through constructs
+   A lazy list that is the value of try/catch, a let binding, an if or switch branch, a closure or func
+   that returns its argument, a map field, a list element or a host function argument is handed on
+   unconsumed: PThrough has identity semantics, wherever it occurs in a pipeline (one step of the
+   construct is one step of the list inside), so C08_demand_bound, C08_late_errors_invisible and all
+   other theorems count such a pipeline exactly like the pipeline without the construct. *)
+Theorem C08_through_is_identity : forall c p q, next (PThrough c p) q = next p q.
+Proof. exact through_is_identity. Qed.
+
+Theorem C08_through_run : forall c fuel t p, run fuel t (PThrough c p) = run fuel t p.
+Proof. exact run_through. Qed.
 
 (* ---------------------------------------------------------------- two-source demand: cross and merge
    cross: p1.cross(p2.map(f), g) with any first list p1, any list p0 under the map, any consumer: the
@@ -219,3 +231,5 @@ Print Assumptions C08_merge_demand_both.
 Print Assumptions C08_merge_one_operand_per_step.
 Print Assumptions C08_merge_operand_read_ahead_refuted.
 Print Assumptions C08_merge_operand_read_ahead_partial.
+Print Assumptions C08_through_is_identity.
+Print Assumptions C08_through_run.
